@@ -46,6 +46,10 @@ class C09(Check):
                         continue
                     out.append({"name": f"N{n}-b{b0}-{b1}-m{size}", "N": n, "b0": b0, "b1": b1, "size": size, "D": 4})
         out.append({"name": "same-beta", "N": 2, "b0": 0.5, "b1": 0.5, "size": None, "D": 4})
+        # an unchanged temperature with an explicit size is a genuine (uniform-weight)
+        # resampling: the final n_final_samples stage after beta reached 1
+        out.append({"name": "same-beta-m3", "N": 2, "b0": 1.0, "b1": 1.0, "size": 3, "D": 4})
+        out.append({"name": "same-beta-m2of3", "N": 3, "b0": 1.0, "b1": 1.0, "size": 2, "D": 4})
         # multi-step histories on ONE object: weights are inspected, per-particle
         # fields are re-assigned (as every mutate() does), then the set is resampled
         for n in ([2] if tier == "quick" else [2, 3]):
@@ -71,7 +75,12 @@ class C09(Check):
                 s.log_likelihood = ll
                 s.log_prior = lp
                 s.log_q = lq
-            out = s.resample(b1, n_samples=size, rng=rng)
+            try:
+                out = s.resample(b1, n_samples=size, rng=rng)
+            except AttributeError as e:
+                # the generator stub only offers what a weighted draw needs
+                ctx.prove(False, "one_draw", detail={"generator_misuse": repr(e)})
+                return
             if b1 == b0 and size is None:
                 ctx.prove(out is s, "same_beta_identity")
                 return
